@@ -24,7 +24,9 @@ class UnusedTranslator:
 
     def __init__(self, prg: list[AST], input_predicates: list[Predicate], output_predicates: list[Predicate]):
         # a projected predicate must not get the name of a declared one, also if the program never mentions it
-        self.unique_names = UniqueNames(prg, list(input_predicates) + list(output_predicates))
+        self.unique_names = UniqueNames(
+            prg, list(input_predicates) + list(output_predicates) + sorted(self._directive_predicates(prg))
+        )
         self.input_predicates = input_predicates
         self.output_predicates = output_predicates
         self.used_positions: dict[Predicate, set[int]] = defaultdict(set)
